@@ -189,7 +189,19 @@ class _Os:
 class _Glob:
 	@staticmethod
 	def glob(pattern) -> list:
-		return sorted(k for k in FILES if fnmatch.fnmatchcase(k, str(pattern)))
+		"""like glob.glob without recursion: a wildcard never crosses a directory separator"""
+		want = str(pattern).split('/')
+		out = []
+		for k in FILES:
+			have = k.split('/')
+			if len(have) == len(want) and all(fnmatch.fnmatchcase(h, w) for h, w in zip(have, want)):
+				out.append(k)
+		return sorted(out)
+
+	@staticmethod
+	def escape(pathname: str) -> str:
+		import glob
+		return glob.escape(pathname)
 
 
 class _File(io.BytesIO):
@@ -226,12 +238,17 @@ KEYS = ['gm/a', 'gm/b', 'gm/a-symbols']
 VALUES = ['1700000000.25', '1700000000.75', '1700000001.25']
 
 
+BASEDIRS = ['.cache', '.cache-x/t-1', 'w[1]/.cache']
+
+
 def proxy_key_law(k1: int, k2: int, v1: int, v2: int, w1: int, w2: int, fmt: int) -> bool:
 	"""
-	pre: 0 <= k1 < 3 and 0 <= k2 < 3 and 0 <= v1 < 3 and 0 <= v2 < 3 and 0 <= w1 < 2 and 0 <= w2 < 2 and 0 <= fmt < 2
+	pre: 0 <= k1 < 3 and 0 <= k2 < 3 and 0 <= v1 < 3 and 0 <= v2 < 3 and 0 <= w1 < 2 and 0 <= w2 < 2 and 0 <= fmt < 6
 	post: _
 	"""
-	k1, k2, v1, v2, w1, w2, fmt = decode(k1, 3), decode(k2, 3), decode(v1, 3), decode(v2, 3), decode(w1, 2), decode(w2, 2), decode(fmt, 2)
+	k1, k2, v1, v2, w1, w2, fmt = decode(k1, 3), decode(k2, 3), decode(v1, 3), decode(v2, 3), decode(w1, 2), decode(w2, 2), decode(fmt, 6)
+	basedir = BASEDIRS[fmt // 2]
+	fmt = fmt % 2
 	saved = (cache_module.os, cache_module.glob, getattr(cache_module, 'open', None))
 	cache_module.os, cache_module.glob, cache_module.open = _Os(), _Glob(), _open  # type: ignore
 	try:
@@ -239,17 +256,25 @@ def proxy_key_law(k1: int, k2: int, v1: int, v2: int, w1: int, w2: int, fmt: int
 		options = {'format': 'json'} if fmt else {}
 
 		def run(key: int, v: int, w: int, tag: str) -> str:
-			provider = CacheProvider(CacheSetting(basedir='.cache', enabled=True))  # a new process
+			provider = CacheProvider(CacheSetting(basedir=basedir, enabled=True))  # a new process
 
 			def factory() -> Thing:
 				return Thing(tag)
 			return provider.get(KEYS[key], identity={'grammar_mtime': VALUES[w], 'mtime': VALUES[v]}, **options)(factory)().tag
 
 		a = run(k1, v1, w1, 'A')
+		first = sorted(FILES)
 		b = run(k2, v2, w2, 'B')
 		same = (k1, v1, w1) == (k2, v2, w2)
 		cover('same' if same else 'different')
-		return ok(a == 'A' and b == ('loaded:A' if same else 'B'))
+		if not (a == 'A' and b == ('loaded:A' if same else 'B')):
+			return ok(False)
+		if k1 == k2 and not same:
+			# eviction: the file an earlier run stored for the same cache key under another identity is gone, so that a later run
+			# whose identity happens to equal the older one (an mtime that comes back) cannot be served the older content
+			cover('evicted')
+			return ok(len(first) == 1 and first[0] not in FILES)
+		return ok(True)
 	finally:
 		cache_module.os, cache_module.glob = saved[0], saved[1]
 		if saved[2] is None:
